@@ -12,3 +12,31 @@ for m in sorted(glob.glob(V + '/seeded/*/meta.json')):
         '; '.join('%s[%s]:%s%s' % (c, v.get('tier', '?')[0], 'CAUGHT' if v['caught'] else 'missed(exit %s)' % v['exit'],
                   ' nfi' if any('no-failing-input-found' in x for x in v['violations']) else '')
                   for c, v in sorted(cs.items()))))
+
+
+def markdown():
+    rows = ['| seed | what the change needs in order to manifest | checks (quick) | first evaluation |', '|---|---|---|---|']
+    for m in sorted(glob.glob(V + '/seeded/*/meta.json')):
+        d = json.load(open(m))
+        name = os.path.basename(os.path.dirname(m))
+        cs = d.get('checks', {})
+        res = []
+        for c, v in sorted(cs.items()):
+            r = 'caught' if v.get('caught') else 'MISSED'
+            if any('no-failing-input-found' in x for x in v.get('violations', [])):
+                r += ' (nfi)'
+            res.append('%s: %s' % (c, r))
+        rows.append('| %s | %s | %s | %s |' % (name, d.get('needs_to_manifest', '').replace('|', '/'),
+                                             '; '.join(res), d.get('history', 'caught')))
+    return '\n'.join(rows)
+
+
+if __name__ == '__main__':
+    import sys
+    if sys.argv[1:] == ['--design']:
+        p = V + '/DESIGN.md'
+        s = open(p).read()
+        i = s.index('<!-- SEEDTABLE -->') + len('<!-- SEEDTABLE -->\n')
+        j = s.index('\n<!-- /SEEDTABLE -->')
+        open(p, 'w').write(s[:i] + markdown() + s[j:])
+        print('DESIGN.md table refreshed')
